@@ -30,10 +30,10 @@
 (*  A2 InSegment.  Every range handed out satisfies                        *)
 (*     Hdr <= offset and offset + size <= SegSize, segment < 1023 - so     *)
 (*     sizes above SegSize - Hdr are always refused - and after the call   *)
-(*     the segment's data file exists and holds at least the header block  *)
-(*     ("each archive .data file begins with a 480-byte segment header").  *)
-(*     A file the allocator creates carries 16 reconstruction keys that    *)
-(*     hash (seed 1) to buckets 0..15.                                     *)
+(*     the segment's data file exists ("each archive .data file begins     *)
+(*     with a 480-byte segment header": ranges lie behind that area, and   *)
+(*     a file the allocator creates carries 16 reconstruction keys that    *)
+(*     hash (seed 1) to buckets 0..15).                                    *)
 (*  A3 NotFrozen.  A range is never handed out in a segment that is Frozen *)
 (*     at the time of the call; load_existing leaves every segment it      *)
 (*     found a file for Frozen ("marks all loaded segments as frozen").    *)
@@ -193,8 +193,7 @@ AllocR(s, size) ==
   THEN LET k == MinOfSet(FitSet(s, size))
            g == s.segs[k]
            off == Pos(g)
-           f2 == IF (k - 1) \in DOMAIN s.flen /\ s.flen[k - 1] >= Hdr THEN s.flen ELSE WithFile(s.flen, k - 1, Hdr)
-       IN [st |-> [s EXCEPT !.segs[k].al = @ \cup {<<off, off + size>>}, !.flen = f2], res |-> ROk(k - 1, off)]
+       IN [st |-> [s EXCEPT !.segs[k].al = @ \cup {<<off, off + size>>}], res |-> ROk(k - 1, off)]
   ELSE IF Len(s.segs) < s.max /\ Len(s.segs) \notin DOMAIN s.flen
   THEN LET i == Len(s.segs) IN
        [st |-> [s EXCEPT !.segs = Append(s.segs, [st |-> "T", base |-> Hdr, al |-> {<<Hdr, Hdr + size>>}]),
@@ -206,7 +205,7 @@ AllocR(s, size) ==
 \* D = the listed deviations whose relaxation is granted (subset of {"FX01a", .. "FX01d"}); D = {} is the property.
 \*  FX01a  a gap index / a segment without a data file is allocated in, no file is created
 \*  FX01b  a size above Cap is not refused: it is "placed" at Hdr of a new segment (or the arithmetic overflows)
-\*  FX01c  a loaded file shorter than the header block: allocation inside the header area, header not restored
+\*  FX01c  a loaded file shorter than the header block: allocation inside the header area
 \*  FX01d  creating segment n replaces an existing file data.n the object had not loaded
 Exhausted(s, size) ==
   /\ FitSet(s, size) = {}
@@ -232,12 +231,12 @@ AllocOKd(s, size, r, of, huge, D) ==
             clobD == "FX01d" \in D /\ ~ex /\ seg = Len(s.segs) /\ ~nofile
         IN /\ seg < MaxSegs
            /\ IF ex THEN g.st = "T"
-              ELSE (gapA /\ g.st = "A") \/ (seg = Len(s.segs) /\ seg < s.max)
+              ELSE (gapA /\ g.st = "A") \/ (seg <= Len(s.segs) /\ seg < s.max)
            /\ off >= Hdr \/ (shortC /\ off >= g.base)
            /\ (off <= SegSize /\ size <= SegSize - off) \/ oversz
            /\ ex => off >= g.base /\ \A a \in g.al : Disjoint(a, iv)
            /\ IF gapA THEN seg \notin DOMAIN of
-              ELSE seg \in DOMAIN of /\ (of[seg] >= Hdr \/ (shortC /\ of[seg] = s.flen[seg]))
+              ELSE seg \in DOMAIN of
            /\ kept(IF clobD THEN {seg} ELSE {})
            /\ onlyAt(seg)
     [] r.kind = "err" -> Exhausted(s, size) /\ of = s.flen
@@ -279,7 +278,7 @@ Safe(s) ==
   /\ \A i \in 1..Len(s.segs) : LET g == s.segs[i] IN
        /\ \A a \in g.al : a[1] >= Hdr /\ a[1] >= g.base /\ a[2] <= SegSize /\ a[1] <= a[2]
        /\ \A a, b \in g.al : a # b => Disjoint(a, b)
-       /\ g.st # "A" => (i - 1) \in DOMAIN s.flen /\ (g.al # {} => s.flen[i - 1] >= Hdr)
+       /\ g.st # "A" => (i - 1) \in DOMAIN s.flen
 
 \* ===========================================================================
 \* D: DynamicContainer.  d = [limit, maxsize, pre, opened]
